@@ -26,6 +26,10 @@ type c11Case struct {
 	Late    int    `json:"late"`             // requests issued after GOAWAY
 	Refuse  int    `json:"refuse,omitempty"` // >0: RST_STREAM(REFUSED_STREAM) the k-th stream before GOAWAY
 	Early   bool   `json:"early,omitempty"`  // the late requests are issued without waiting for quiescence after GOAWAY
+	// per request with a body: 0 buffered 100+i octets, 1 SetBodyStream (declared) 100+i octets, 2 SetBodyStream of
+	// unknown length and 70000 octets, 3 buffered 70000 octets; the last two are still waiting for window when the
+	// GOAWAY / RST_STREAM / early answer arrives (the scripted server grants none)
+	BodyKind []int `json:"bodykind,omitempty"`
 }
 
 func c11Run(c c11Case) Outcome {
@@ -51,6 +55,16 @@ func c11Run(c c11Case) Outcome {
 		r := speer.ReqSpec{Tag: tag, Method: "POST", Path: "/" + tag}
 		if c.Bodies[i] {
 			r.BodyLen = 100 + i
+			if i < len(c.BodyKind) {
+				switch c.BodyKind[i] {
+				case 1:
+					r.Mode = 1
+				case 2:
+					r.BodyLen, r.Mode, r.Chunks = 70000, 2, []int{5000}
+				case 3:
+					r.BodyLen = 70000
+				}
+			}
 		}
 		calls[tag] = env.Do(r)
 		tags = append(tags, tag)
@@ -157,6 +171,7 @@ func c11Run(c c11Case) Outcome {
 		}
 	}
 	// serve whatever landed on later connections
+	granted := map[string]bool{}
 	serveOthers := func() *Outcome {
 		for round := 0; round < 6; round++ {
 			did := false
@@ -165,6 +180,14 @@ func c11Run(c c11Case) Outcome {
 				for t, ids := range streamsOf(sc) {
 					for _, id := range ids {
 						g := got[id]
+						// a later connection is a well-behaved server: a re-sent request whose body is larger than
+						// the initial windows gets the window it needs (the first connection grants none on purpose)
+						if key := fmt.Sprintf("%d/%d", sc.Index, id); (g == nil || g.EndStream == 0) && !granted[key] {
+							granted[key] = true
+							sc.SendWindowUpdate(0, 1<<20)
+							sc.SendWindowUpdate(id, 1<<20)
+							did = true
+						}
 						if g != nil && g.EndStream > 0 && !sc.Answered(id) {
 							sc.MarkAnswered(id)
 							respHeaders(sc, id, t+"@"+fmt.Sprint(sc.Index), false)
@@ -345,6 +368,7 @@ func c11Gen(t *rapid.T) c11Case {
 		Drop: rapid.Bool().Draw(t, "drop"), Late: rapid.IntRange(0, 2).Draw(t, "late"), Early: rapid.Bool().Draw(t, "early")}
 	for i := 0; i < n; i++ {
 		c.Bodies = append(c.Bodies, rapid.Bool().Draw(t, "body"))
+		c.BodyKind = append(c.BodyKind, rapid.SampledFrom([]int{0, 0, 1, 2, 2, 3}).Draw(t, "bodykind"))
 		c.Partial = append(c.Partial, rapid.IntRange(0, 2).Draw(t, "partial"))
 		c.Answer = append(c.Answer, rapid.IntRange(0, 3).Draw(t, "answer") != 0)
 	}
@@ -357,7 +381,7 @@ func c11Gen(t *rapid.T) c11Case {
 
 func TestC11(t *testing.T) {
 	s := newSuite(t, "C11",
-		"1..5 requests in flight on one connection (with or without bodies; some with response HEADERS or HEADERS+partial DATA already delivered; optionally one refused with RST_STREAM(REFUSED_STREAM)), then GOAWAY with last-stream-id from {0, the id of any in-flight stream, above all, 2^31-1} and a generated code; afterwards the scripted server completes a generated subset of the streams at or below last-stream-id in a generated order and then keeps the connection or drops it; 0..2 further requests are issued right behind the GOAWAY or after quiescence and land on later scripted connections, which answer everything; finally the first connection is closed. Oracle per request tag: its HEADERS are seen at most once over all connections unless the first connection disclaimed it (id above last-stream-id, or REFUSED_STREAM); no stream is opened on a connection after its GOAWAY; a disclaimed request is resolved at quiescence (error, or the answer a later connection gave its re-sent copy) and is never reported successful from the first connection; retry==true only for requests the server cannot have processed; requests at or below last-stream-id that were answered completely succeed with exactly their response, unanswered ones fail; every RoundTrip returns exactly once. Non-trivial = 0 < last-stream-id < highest in-flight id, or a refused stream; distinct by case hash.")
+		"1..5 requests in flight on one connection (without a body, or with a buffered or streamed one, small or larger than the window and therefore still pending; some with response HEADERS or HEADERS+partial DATA already delivered; optionally one refused with RST_STREAM(REFUSED_STREAM)), then GOAWAY with last-stream-id from {0, the id of any in-flight stream, above all, 2^31-1} and a generated code; afterwards the scripted server completes a generated subset of the streams at or below last-stream-id in a generated order and then keeps the connection or drops it; 0..2 further requests are issued right behind the GOAWAY or after quiescence and land on later scripted connections, which answer everything; finally the first connection is closed. Oracle per request tag: its HEADERS are seen at most once over all connections unless the first connection disclaimed it (id above last-stream-id, or REFUSED_STREAM); no stream is opened on a connection after its GOAWAY; a disclaimed request is resolved at quiescence (error, or the answer a later connection gave its re-sent copy) and is never reported successful from the first connection; retry==true only for requests the server cannot have processed; requests at or below last-stream-id that were answered completely succeed with exactly their response, unanswered ones fail; every RoundTrip returns exactly once. Non-trivial = 0 < last-stream-id < highest in-flight id, or a refused stream; distinct by case hash.")
 	defer s.finish()
 	runLane(s, Lane[c11Case]{Name: "goaway", Journal: true, Quick: 500, Thor: 80000, Gen: c11Gen, Run: c11Run})
 }
